@@ -771,7 +771,7 @@ func (m *RedisMessage) ToString() (val string, err error) {
 	if m.IsString() {
 		return m.string(), nil
 	}
-	if m.IsInt64() || m.array != nil {
+	if m.IsInt64() || m.IsBool() || m.array != nil {
 		typ := m.typ
 		return "", fmt.Errorf("%w: redis message type %s is not a string", errParse, typeNames[typ])
 	}
